@@ -70,14 +70,25 @@ Print Assumptions C12_unauthorised_is_inert_recalibrate.
 
 (* Every server message (any call id, any payload, from any state) that changes calibration data (full opening /
    closing times, auto-calibration times and step, position, tilt of any shutter) is an authorised recalibrate request
-   for a channel that supports it — except the known finding: set-value messages addressed to a shutter channel. *)
+   for a channel that supports it — except the known findings rs-setvalue-times / rs-setvalue-aborts-autocal:
+   known_class_precise = a CHANNEL_SET_VALUE / CHANNELGROUP_SET_VALUE of the right size, addressed to a shutter
+   channel, for which sv_shutter (times from DurationMS; relay command while auto-calibrating) changes the data. *)
 Theorem C12_no_other_message_touches_calibration_except_known : forall s call p,
-  live s -> ~ known_class s call p ->
+  live s -> ~ known_class_precise s call p ->
   calib_all (fst (step s (Srv call p))) <> calib_all s ->
   call = CALL_CALCFG_REQUEST /\ calcfg_gate p = true /\ s32 (le32 p REQ_OFF_COMMAND) = CMD_RECALIBRATE /\ nthz p REQ_OFF_AUTH <> 0 /\
   existsb (rmatch (s32 (le32 p REQ_OFF_CHANNEL))) (rss (pre_iter s)) = true.
-Proof. exact (no_other_message_touches_calibration_except_known_thm code_shape_holds). Qed.
+Proof. exact (no_other_message_touches_calibration_except_known_precise_thm code_shape_holds). Qed.
 Print Assumptions C12_no_other_message_touches_calibration_except_known.
+
+(* what the known class amounts to on a board without auto-calibration: a set-value whose DurationMS carries the
+   stored times, and that is a position command or arrives while no auto-calibration runs, is NOT in the class *)
+Theorem C12_known_class_is_times_or_autocal_abort : forall r dur v,
+  band (r_flags r) CHFLAG_AUTOCAL = false -> sv_close_time dur = r_t2 r -> sv_open_time dur = r_t1 r ->
+  (r_step r = 0 \/ r_abr r = true \/ sv_is_position v = true) ->
+  calib (sv_shutter r dur v) = calib r.
+Proof. exact sv_shutter_same. Qed.
+Print Assumptions C12_known_class_is_times_or_autocal_abort.
 
 (* the clause without the exception is false: a registered device, stored times 10.0 s / 12.0 s, plain
    CHANNEL_SET_VALUE for the shutter channel with DurationMS = 130 | 100 << 16 *)
